@@ -22,6 +22,7 @@ type Rec struct {
 	Deep    bool   // json with Env.Deep: the record is the value of a key "n"
 	Wrap    bool   // xml/json with Env.Deep: the record sits one level deeper (inside a <batch>)
 	NS      string // xml: the record binds this prefix to uri://items and has a child <NS:q>
+	Fill    [3]int // multi-line fixedlength2: filler lengths at the ends of the record's lines
 	Raw     string // csv: the row as written (reader-level failures: bare quote, garbage after quote)
 }
 
@@ -46,6 +47,23 @@ func Formats() []Fmt {
 		out = append(out, Fmt{Idx: i, Name: f.Format, Fixture: f})
 	}
 	return out
+}
+
+// MultiLineFormats: fixedlength2 envelopes spanning several lines (rows = 3; header/footer with
+// three data lines), for long inputs that make the reader's bufio refill many times.
+func MultiLineFormats() []Fmt {
+	hdr := `"parser_settings": { "version": "omni.2.1", "file_format_type": "fixedlength2" }`
+	fo := `"transform_declarations": { "FINAL_OUTPUT": { "object": { "a": { "xpath": "a" } } } }`
+	rows3 := `{` + hdr + `, "file_declaration": { "envelopes": [ { "rows": 3, "columns": [
+  {"name":"a","start_pos":2,"length":6,"line_pattern":"^1"}, {"name":"b","start_pos":2,"length":5,"line_pattern":"^2"},
+  {"name":"c","start_pos":2,"length":6,"line_pattern":"^3"} ] } ] }, ` + fo + `}`
+	hf := `{` + hdr + `, "file_declaration": { "envelopes": [ { "name": "REC", "header": "^B", "footer": "^E", "is_target": true, "columns": [
+  {"name":"a","start_pos":2,"length":6,"line_pattern":"^1"}, {"name":"b","start_pos":2,"length":5,"line_pattern":"^2"},
+  {"name":"c","start_pos":2,"length":6,"line_pattern":"^3"} ] } ] }, ` + fo + `}`
+	return []Fmt{
+		{Idx: 4, Name: "fl2-rows3", Fixture: vh.Fixture{Format: "fixedlength2", Schema: rows3}},
+		{Idx: 4, Name: "fl2-hf", Fixture: vh.Fixture{Format: "fixedlength2", Schema: hf}},
+	}
 }
 
 func padr(s string, n int) string {
@@ -82,6 +100,14 @@ func (f Fmt) RenderRec(r Rec) string {
 		return padr(r.A, 6) + padr(r.B, 5) + padr(r.C, 6) + "\n"
 	case "fixedlength2":
 		return "R" + padr(r.A, 6) + padr(r.B, 5) + padr(r.C, 6) + "\n"
+	case "fl2-rows3", "fl2-hf":
+		x := "1" + padr(r.A, 6) + strings.Repeat("x", r.Fill[0]) + "\n" +
+			"2" + padr(r.B, 5) + strings.Repeat("y", r.Fill[1]) + "\n" +
+			"3" + padr(r.C, 6) + strings.Repeat("z", r.Fill[2]) + "\n"
+		if f.Name == "fl2-hf" {
+			x = "B\n" + x + "E\n"
+		}
+		return x
 	case "json":
 		a := jstr(r.A)
 		if r.Nest {
@@ -343,6 +369,17 @@ var groups = []group{
 		`"thr4": {"custom_func":{"name":"javascript","ignore_error":true,"args":[{"const":"(function(){throw 'x'})()"},{"const":"Math"},{"xpath":"c","keep_empty_or_null":true},{"const":"JSON"},{"const":"J"}]}}`}, nil, ""},
 	// a failing field whose name sorts AFTER the ancestor-anchored declarations (anc, up)
 	{"late-cast", []string{`"zcast": {"xpath":"b","type":"int"}`}, nil, ""},
+	// declarations that FAIL inside an xpath_dynamic (errors there are swallowed: the field is
+	// null) together with the textually identical declarations m and f used as ordinary members
+	// later in name order on the same node (they must still fail the record)
+	{"dyn-failing", []string{
+		`"da": {"xpath_dynamic":{"xpath":"*[normalize-space(.)='BOOM']"}}`,
+		`"dc": {"xpath_dynamic":{"custom_func":{"name":"failif","args":[{"xpath":"a"}]}}}`,
+		`"dd": {"xpath_dynamic":{"custom_func":{"name":"concat","args":[{"xpath":"*[normalize-space(.)='BOOM']"},{"const":""}]}}}`}, nil, ""},
+	// a custom function with several args mixing externals of the transform and fields of the record
+	{"multi-arg", []string{
+		`"key": {"custom_func":{"name":"concat","args":[{"external":"ext_s"},{"const":"/"},{"xpath":"a","keep_empty_or_null":true},{"const":"/"},{"xpath":"c","keep_empty_or_null":true},{"const":"/"},{"external":"ext_i"}]}}`,
+		`"key2": {"custom_func":{"name":"javascript","args":[{"const":"p+'|'+q+'|'+s"},{"const":"p"},{"external":"ext_s"},{"const":"q"},{"xpath":"a","keep_empty_or_null":true},{"const":"s"},{"external":"ext_f"}]}}`}, nil, ""},
 	// a script reading globals it was not passed
 	{"js-global-probe", []string{
 		`"probe": {"custom_func":{"name":"javascript","args":[{"const":"typeof discount === 'undefined' ? 0 : discount"}]}}`,
@@ -357,6 +394,9 @@ var groups = []group{
 // Skip lists FINAL_OUTPUT field names the next GenDecls calls leave out (C10 leaves out dyn3,
 // which uses raw record data as an xpath and so fails on records the algebra treats as good).
 var Skip = map[string]bool{}
+
+// OnlyMust makes GenDecls use exactly the required groups (no random extras).
+var OnlyMust bool
 
 func skipped(field string) bool {
 	for k := range Skip {
@@ -378,7 +418,7 @@ func GenDecls(r *vh.Rng, format string, finalXPath string, must []string, extra 
 		if g.only != "" && g.only != format {
 			continue
 		}
-		if !want[g.feature] && !r.Chance(0.4) {
+		if !want[g.feature] && (OnlyMust || !r.Chance(0.4)) {
 			continue
 		}
 		feats[g.feature] = true
